@@ -1780,12 +1780,22 @@ namespace ff {
 
     // Static functions below are not documented, but their usage is quite obvious
     static inline void * ff_malloc(size_t size) {
+#ifdef FIX8_VERIF
+        // verification hook: 70/71 bracket the allocator (an external scheduler ignores the points inside)
+        fix8_verif_point(70, 0); void * p = FFAllocator::instance()->malloc(size); fix8_verif_point(71, 0); return p;
+#endif
         return FFAllocator::instance()->malloc(size);
     }
     static inline void   ff_free(void * ptr) {
+#ifdef FIX8_VERIF
+        fix8_verif_point(70, 0); FFAllocator::instance()->free(ptr); fix8_verif_point(71, 0); return;
+#endif
         FFAllocator::instance()->free(ptr);
     }
     static inline void * ff_realloc(void * ptr, size_t newsize) {
+#ifdef FIX8_VERIF
+        fix8_verif_point(70, 0); void * p = FFAllocator::instance()->realloc(ptr,newsize); fix8_verif_point(71, 0); return p;
+#endif
         return FFAllocator::instance()->realloc(ptr,newsize);
     }
     static inline int    ff_posix_memalign(void **memptr, size_t alignment, size_t size) {
